@@ -42,12 +42,15 @@ CHECKS = {
         "handlers and in-flight tasks (std RwLock modelled as writer-preferring; early exits of tasks allowed but never counted as progress); "
         "undisciplined_main_deadlocks / undisciplined_handler_deadlocks show both disciplines are needed; store_stable: when edits cancel and wait "
         "before writing the store, no task ever observes a store newer than its snapshot; glas_disciplined, glas_handlers_disciplined, "
-        "glas_store_quiet are decided on the GENERATED programs. Tie: the real server (feature verif: named yield points) writes the globally ordered "
+        "glas_store_quiet are decided on the GENERATED programs. Diagnostics (Props/C16Diag.lean, model M-diag of spawn_update_diagnostics / "
+        "on_update_diagnostics with flags regenerated from server.rs): for ANY interleaving of changes, finishing (or cancelled) calculations and "
+        "delivered results, settles_on_last_version (once nothing runs and nothing is queued every open document shows the diagnostics of the last store "
+        "version), shown_monotone, never_wrong, shown_le_version; three decided witnesses show what the repaired defects do to the model. Tie: the real server (feature verif: named yield points) writes the globally ordered "
         "trace of lock events; every trace is replayed on the model by the Lean driver and must be accepted. Oracle on the real binary over stdio "
         "(seeded batching; seeded delays at the yield points in 2/3 of the sessions): every request answered within 60 s, exactly once; the loop "
         "keeps accepting messages; a result equals the answer of a sequential run of the same messages (a result for the version the request was "
         "issued against); after quiescence the server's text equals the client's and the last diagnostics are those of the final text. Two genuine "
-        "defects were found and repaired (fix: commits 783ac0f, 8a37619). PARTIAL: real schedules are sampled; tokio, std RwLock and salsa are modelled by contract."),
+        "defects were found and repaired (fix: commits 783ac0f, 8a37619, f6bf60c). PARTIAL: real schedules are sampled; tokio, std RwLock and salsa are modelled by contract."),
   note=TB + "Modelled, not verified: tokio's scheduling, std::sync::RwLock (writer-preferring), salsa's write lock; branches and loops of the methods are flattened to straight-line programs (the trace replay skips what a run did not execute).", ref="5.C16, 4.6"),
  "C12": dict(
   technique="Lean 4 invariant proofs over a reader/writer/cancellation transition system whose flags are regenerated from ide/mod.rs + replay of real multi-threaded event logs on the model",
